@@ -20,6 +20,8 @@
 (*   "ok"   valid authority                                                  *)
 (*   "odd"  valid, but the authority is ended by ? or #, so the rest of the  *)
 (*          Location is query/fragment (path is not tracked afterwards)      *)
+(*   "zoned" valid and reachable once (doubly escaped IPv6 zone); path not     *)
+(*          tracked; a host-less Location received there cannot be resolved   *)
 (*   "bad"  not a valid authority: the design refuses such a URL (an         *)
 (*          implementation that sends something anyway is still bound by the *)
 (*          safety side: no credentials, hop limit - the harness checks it)  *)
@@ -72,8 +74,8 @@ SpellTab ==
   \* escaped forms are refused at the re-parse, the doubly escaped one reaches the network.)
   @@ "ip6zone"   :> S("[::1%25.h0.test]", "", "bad")
   @@ "ip6zoneif" :> S("[fe80::1%25eth0]", "", "bad")
-  @@ "ip6zone2"  :> S("[::1%2525.h0.test]:8080", "::1%.h0.test", "odd")
-  @@ "ip6zone2s" :> S("[fe80::2%2525a.h0.test]", "fe80::2%a.h0.test", "odd")
+  @@ "ip6zone2"  :> S("[::1%2525.h0.test]:8080", "::1%.h0.test", "zoned")
+  @@ "ip6zone2s" :> S("[fe80::2%2525a.h0.test]", "fe80::2%a.h0.test", "zoned")
   @@ "ip4"       :> S("10.0.0.1", "10.0.0.1", "ok")
   @@ "ip4look"   :> S("110.0.0.1", "110.0.0.1", "ok")
   @@ "fragsame"  :> S("h0.test#@evil.test", "h0.test", "odd")   \* authority ends at '#'
@@ -184,7 +186,10 @@ RecvRedirectT(st, form, tgt, Trust(_, _)) ==
   /\ IF nredir' > sc.max
        THEN /\ result' = "toomany" /\ phase' = "done"
             /\ UNCHANGED <<cur, pathOk, method, body, creds, lastSt>>
-       ELSE LET nc == IF form \in HostForms THEN tgt ELSE cur IN
+       ELSE \* a Location without a host is resolved against the current URL; the URL of a "zoned"
+            \* host does not survive another re-parse (its zone escape is consumed): refused
+            LET nc == IF form \in HostForms THEN tgt
+                      ELSE IF SpellTab[cur].kind = "zoned" THEN "ip6zone" ELSE cur IN
             /\ cur' = nc
             /\ pathOk' = (IF form \in HostForms THEN SpellTab[tgt].kind = "ok"
                           ELSE IF form = "hostrel" THEN TRUE ELSE pathOk)
